@@ -358,4 +358,22 @@ theorem locking_shape :
 /-- `Search` tests the tombstone of every vertex it puts into its result -/
 theorem search_skips_tombstoned : Generated.searchSkipsTombstonedResults = true := by decide
 
+
+/-- **searches share nothing they write** (regenerated from `index/hnsw.go`): in the read path of the
+index — `Search`, `greedyClosestNeighbor`, `searchLevel`, `selectNeighbors*` — every assignment goes to
+a local variable (or into a local map / slice) and nothing is called but read-only accessors and the
+search's own local queues. Hence what the theorems of this file say about one search holds for each
+of any number of simultaneous searches on an index nobody writes (seeded changes C01-D / C07-D keep
+the visited marks on the vertices: simultaneous searches then return an id twice). -/
+theorem search_path_writes_nothing_shared : Generated.searchPathWritesNothingShared = true := by decide
+
+
+/-- frame: a search's own steps change nothing but the search's bookkeeping — membership, tombstones,
+the entry point and the writers' program counters are what they were -/
+theorem search_steps_write_nothing_shared (nw : Nat) (c c' : ConcIndex.Cfg) (s : ConcIndex.Step nw c c') :
+    (c'.started ≠ c.started ∨ c'.okVisited ≠ c.okVisited ∨ c'.returned ≠ c.returned) →
+      c'.stored = c.stored ∧ c'.ever = c.ever ∧ c'.tomb = c.tomb ∧ c'.entry = c.entry ∧ c'.wpc = c.wpc := by
+  intro hch
+  cases s <;> simp_all
+
 end Anndb.C13
